@@ -318,3 +318,50 @@ class SymList(SOpaque):
                 self._nonempty = z3.BoolVal(True)
             return SFunc("model", append)
         raise Unsupported(f"list method {name} on a list of unknown length")
+
+
+class CountList(SOpaque):
+    """a python list of unknown content of which only the length matters to the contract: append / extend / len /
+    truthiness / [*a, *b] displays.  `tag` says what it holds (for clauses)."""
+
+    def __init__(self, name, count=None):
+        super().__init__(name, cls=list)
+        self.count = count if count is not None else z3.IntVal(0)
+
+    @property
+    def nonempty(self):
+        return self.count > 0
+
+    def length(self, I):
+        from .symexec import SInt
+        return SInt(self.count)
+
+    def getattr(self, I, name):
+        if name == "append":
+            def append(I2, a, k):
+                self.count = self.count + 1
+            return SFunc("model", append)
+        if name == "extend":
+            def extend(I2, a, k):
+                o = a[0]
+                if isinstance(o, CountList):
+                    self.count = self.count + o.count
+                elif isinstance(o, SList):
+                    self.count = self.count + len(o.items)
+                else:
+                    raise Unsupported("extend of a counted list by something else")
+            return SFunc("model", extend)
+        raise Unsupported(f"list method {name} on a counted list")
+
+    def concat_display(self, I, before, rest):
+        n = self.count + len(before)
+        for r in rest:
+            if isinstance(r, tuple) and r and r[0] == "item":
+                n = n + 1
+            elif isinstance(r, CountList):
+                n = n + r.count
+            elif isinstance(r, SList):
+                n = n + len(r.items)
+            else:
+                raise Unsupported("list display mixing a counted list with something else")
+        return CountList(self.name + "+", n)
